@@ -160,6 +160,43 @@ class CFG:
         else:
             self._edge(nid, tgt, "x" if (caught or explicit) else "u", ())
 
+    def _typed_raise_target(self, st: ast.Raise, stack):
+        """Target of `raise <BuiltinError>(...)` when it can be decided from the class hierarchy of the built-in exceptions: the first enclosing handler
+        that catches the class, or the exceptional exit. None (= use the conservative edges) for re-raises, non-built-in classes, handlers that name
+        non-built-in classes, and when a finally block lies in between."""
+        import builtins
+        e = st.exc
+        if e is None:
+            return None
+        nm = e.func if isinstance(e, ast.Call) else e
+        if not isinstance(nm, ast.Name):
+            return None
+        cls = getattr(builtins, nm.id, None)
+        if not (isinstance(cls, type) and issubclass(cls, BaseException)):
+            return None
+        for i in range(len(stack) - 1, -1, -1):
+            fr = stack[i]
+            if fr[0] == "fin":
+                return None
+            if fr[0] != "try":
+                continue
+            for hid in fr[1]:
+                h = self.nodes[hid].ast
+                if h.type is None:
+                    return hid
+                names = h.type.elts if isinstance(h.type, ast.Tuple) else [h.type]
+                for t in names:
+                    if not isinstance(t, ast.Name):
+                        return None
+                    hc = getattr(builtins, t.id, None)
+                    if not (isinstance(hc, type) and issubclass(hc, BaseException)):
+                        # a handler for a class that is not built in (signac.errors.*): an instance of exactly the built-in class `cls` is caught by it only if
+                        # `cls` derives from that class - a built-in class never derives from a user-defined one
+                        continue
+                    if issubclass(cls, hc):
+                        return hid
+        return self.rexit
+
     def _in_try(self, stack):
         return any(fr[0] in ("try", "fin") for fr in stack)
 
@@ -196,7 +233,12 @@ class CFG:
         if isinstance(st, ast.Raise):
             n = self._new("stmt", st, tag)
             self._connect(frontier, n)
-            self._raise_edges(n, stack, explicit=True)
+            tt = self._typed_raise_target(st, stack)
+            if tt is not None:
+                # an explicit raise of a built-in exception class under handlers that name built-in classes only: it goes to the handler that catches it, or out
+                self._edge(n, tt, "x", ())
+            else:
+                self._raise_edges(n, stack, explicit=True)
             return []
         if isinstance(st, ast.If):
             t = self._simple(st, frontier, stack, tag, "test")
